@@ -33,6 +33,7 @@ const (
 type poolItem struct {
 	v     any
 	owner int
+	mlen  int // entries of a pooled scope map at Put (poison key included)
 }
 
 type poolState struct {
@@ -118,14 +119,14 @@ func (p *Pool) state() *poolState {
 }
 
 //go:norace
-func (p *Pool) take() (any, bool) {
+func (p *Pool) take() (any, int, bool) {
 	poolStat.gets++
 	st := p.state()
 	if st == nil || poolMode == 0 || st.n == 0 {
-		return nil, false
+		return nil, 0, false
 	}
 	if poolRng.below(1000) >= uint64(poolSpec.ReusePerMille) {
-		return nil, false
+		return nil, 0, false
 	}
 	idx := st.n - 1
 	switch poolMode {
@@ -145,11 +146,11 @@ func (p *Pool) take() (any, bool) {
 	if it.owner != k.cur {
 		poolStat.cross++
 	}
-	return it.v, true
+	return it.v, it.mlen, true
 }
 
 //go:norace
-func (p *Pool) give(v any) bool {
+func (p *Pool) give(v any, mlen int) bool {
 	st := p.state()
 	if st == nil || poolMode == 0 || st.n >= maxPoolItems {
 		poolStat.dropped++
@@ -159,7 +160,7 @@ func (p *Pool) give(v any) bool {
 		poolStat.dropped++
 		return false
 	}
-	st.items[st.n] = poolItem{v: v, owner: k.cur}
+	st.items[st.n] = poolItem{v: v, owner: k.cur, mlen: mlen}
 	st.n++
 	return true
 }
@@ -179,12 +180,13 @@ func (p *Pool) Get() any {
 		return nil
 	}
 	Yield(-7)
-	if v, ok := p.take(); ok {
+	if v, mlen, ok := p.take(); ok {
 		raceAcquire(poolRaceAddr(v))
 		if poolSpec.Poison {
 			if m, ok := v.(map[string]any); ok {
-				if _, has := m[PoisonKey]; !has || len(m) != 1 {
-					// somebody touched the map while the pool owned it
+				// somebody touched the map while the pool owned it: the poison key is gone or the number of entries is
+				// not what it was at Put (whether a map is emptied before Put or after Get is the client's business)
+				if _, has := m[PoisonKey]; !has || len(m) != mlen {
 					notePoolDirty()
 				}
 				delete(m, PoisonKey)
@@ -208,11 +210,13 @@ func (p *Pool) Put(v any) {
 		return
 	}
 	Yield(-8)
+	mlen := 0
 	if poolMode != 0 && poolSpec.Poison {
 		if m, ok := v.(map[string]any); ok {
 			m[PoisonKey] = true
+			mlen = len(m)
 		}
 	}
 	raceReleaseMerge(poolRaceAddr(v))
-	p.give(v)
+	p.give(v, mlen)
 }
